@@ -8,12 +8,34 @@ from harness import common
 from harness.translate import gen as G
 
 PROPERTY = "C09"
-LEAN_MODULES = ["SigpyVerif.Props.C09"]
+LEAN_MODULES = ["SigpyVerif.Props.C09", "SigpyVerif.Props.C09Nd", "SigpyVerif.Props.C09Samp", "SigpyVerif.Props.C09Shift",
+                "SigpyVerif.Props.C09Block"]
 THEOREMS = ["SigpyVerif.C09." + t for t in [
     "resize_default_aligns", "resize_in_bounds", "resize_transpose", "resize_default_swap",
     "roll_inverse", "roll_in_range", "downsampleLen_spec", "upsampleLen_eq_downsampleLen",
     "up_down_index", "up_test_is_sample", "numBlks_maximal", "numBlks_sites_agree",
     "a2b1_mem", "b2a1_mem", "b2a1_transpose_a2b1", "sliceLen_eq_advertised", "flip_index", "a2b2_mem", "b2a2_mem", "a2b3_mem", "b2a3_mem",
+    # Lemmas/C09.lean: row-major enumeration
+    "shapeProd_cons", "shapeProd_append", "ravel_cons", "mem_allIdx", "mem_allIdx_iff_getD", "allIdx_length",
+    "allIdx_getElem?_ravel", "ravel_injective", "map_allIdx_getD", "map_allIdx_size",
+    # Props/C09Nd.lean: N-d lifts and array-level statements
+    "expandShapes_spec", "expandShapes_prod", "expandShapes_same_rank", "resizeSrc_spec", "resize_default_aligns_nd",
+    "resize_transpose_nd", "resize_in_bounds_nd", "resize_array_spec", "resize_same_shape", "resize_size",
+    # Props/C09Samp.lean: downsample / upsample on arrays and their compositions
+    "sliceLen_spec", "downSrc_mem", "up_of_down", "down_of_up", "downsample_array_spec", "upsample_array_spec",
+    "samp_params_ok", "downsample_upsample_id", "upsample_downsample_mask",
+    # Props/C09Shift.lean: flip / circshift on arrays
+    "mapAxes_length", "mapAxes_getD", "mapAxes_mem_allIdx", "flip_array_spec", "flipSrc_getD", "flipSrc_mem",
+    "flipSrc_involutive", "flip_flip_array", "rollStep_mem", "circSrc_mem", "circshift_eq", "foldl_rollArr_getD",
+    "circshift_isSome_iff", "circshift_array_spec", "rollStep_getD", "rollSrc_pyMod", "circSrc_getD",
+    "circSrc_getD_untouched", "circshift_distinct_axes", "circshift_perm", "circshift_perm_array",
+    "circshift_inverse_array", "circshift_inverse_array_getD", "circshift_roundtrip",
+    # Props/C09Block.lean: gather destinations are unique; scatter multiplicities
+    "a2b1_dst_unique", "a2b1_dst_nodup", "a2b2_dst_unique", "a2b2_dst_nodup", "a2b3_dst_unique", "a2b3_dst_nodup",
+    "coverCount_pos_iff", "coverCount_eq_zero_iff", "length_filter_eq_of_bij", "length_filter_product",
+    "b2a1_cover", "b2a1_uncovered", "b2a1_out_of_range", "b2a1_uncovered_nil",
+    "b2a2_cover", "b2a2_uncovered", "b2a2_out_of_range", "b2a2_uncovered_nil",
+    "b2a3_cover", "b2a3_uncovered", "b2a3_out_of_range", "b2a3_uncovered_nil", "b2a_accumulates",
 ]]
 
 
@@ -49,6 +71,49 @@ def canon(arr):
 def rshape(rng, nd=None, lo=1, hi=6):
     nd = nd or rng.choice([1, 1, 2, 2, 3])
     return [rng.randint(lo, hi) for _ in range(nd)]
+
+
+def gen_circshift(rng, multi=None):
+    """circshift case.  `multi` cases have >= 2 (axis, shift) pairs on an array of rank >= 2 with axes
+    given in arbitrary order (mostly NOT ascending), as negative or non-negative numbers, possibly
+    repeated, and pairwise different shifts -- so that re-ordering / de-duplicating / re-normalising
+    the axes list without the shifts changes the result."""
+    if multi is None:
+        multi = rng.random() < 0.6
+    if not multi:
+        sh = rshape(rng)
+        if rng.random() < 0.5:
+            return dict(sh=sh, shifts=[rng.randint(-7, 7) for _ in sh], axes=None)
+        k = rng.randint(1, len(sh))
+        return dict(sh=sh, shifts=[rng.randint(-7, 7) for _ in range(k)],
+                    axes=[rng.choice(range(-len(sh), len(sh))) for _ in range(k)])
+    nd = rng.choice([2, 2, 3, 3, 4])
+    sh = [rng.randint(2, 5 if nd < 4 else 3) for _ in range(nd)]
+    k = rng.randint(2, nd + 2)
+    kind = rng.choice(["unsorted", "unsorted", "unsorted", "repeated", "any"])
+    for _ in range(50):
+        norm = [rng.randrange(nd) for _ in range(k)]
+        if kind == "unsorted" and norm == sorted(norm):
+            continue
+        if kind == "repeated" and len(set(norm)) == len(norm):
+            continue
+        break
+    # each axis written either as a or as a - nd (negative form) independently
+    axes = [a - nd if rng.random() < 0.5 else a for a in norm]
+    shifts = rng.sample([v for v in range(-7, 8) if v != 0], k)
+    return dict(sh=sh, shifts=shifts, axes=axes)
+
+
+def circshift_order_sensitive(c):
+    """True when sorting the axes (raw or normalised) while keeping the shifts changes the pairing"""
+    if c["axes"] is None or len(c["axes"]) < 2:
+        return False
+    nd = len(c["sh"])
+    pairs = sorted(zip([a % nd for a in c["axes"]], c["shifts"]))
+    for order in (sorted(c["axes"]), sorted(a % nd for a in c["axes"])):
+        if sorted(zip([a % nd for a in order], c["shifts"])) != pairs:
+            return True
+    return False
 
 
 def gen_cases(rng, n):
@@ -89,14 +154,7 @@ def gen_cases(rng, n):
                 axes = ax2
             c.update(sh=sh, axes=axes)
         elif op == "circshift":
-            sh = rshape(rng)
-            if rng.random() < 0.4:
-                axes, shifts = None, [rng.randint(-7, 7) for _ in sh]
-            else:
-                k = rng.randint(1, len(sh))
-                axes = [rng.choice(range(-len(sh), len(sh))) for _ in range(k)]
-                shifts = [rng.randint(-7, 7) for _ in range(k)]
-            c.update(sh=sh, shifts=shifts, axes=axes)
+            c.update(gen_circshift(rng))
         elif op in ("downsample", "upsample"):
             sh = rshape(rng, hi=9)
             f = [rng.randint(1, 4) for _ in sh]
@@ -308,17 +366,35 @@ def _run(ctx, cases, stream, rng):
 
 def correspond(ctx):
     ctx.rule = ("cases = (op, shapes, shifts/factors/blocks/strides, integer input); distinct by protocol line + "
-                "entry point (function / Linop); all are non-trivial (non-empty arrays, labelled or random data)")
+                "entry point (function / Linop); all are non-trivial (non-empty arrays, labelled or random data); "
+                "stream circshift-axes: rank 2-4, 2..rank+2 (axis, shift) pairs, axes unsorted / negative / repeated, "
+                "pairwise different non-zero shifts")
     n = 250 if ctx.tier == "quick" else 2500
     cases = gen_cases(ctx.rng, n)
     bad = _run(ctx, cases, "random", ctx.rng)
     ctx.oblige("correspondence:C09.random", "correspondence", bad == 0, "%d disagreements" % bad)
+    # multi-axis circshift with unsorted / negative / repeated axes (see gen_circshift)
+    cs = [dict(op="circshift", **gen_circshift(ctx.rng, multi=True)) for _ in range(80 if ctx.tier == "quick" else 600)]
+    sens = sum(1 for c in cs if circshift_order_sensitive(c))
+    ctx.count("circshift:multi-axis", len(cs))
+    ctx.count("circshift:order-sensitive", sens)
+    bad = _run(ctx, cs, "circshift-axes", ctx.rng)
+    ctx.oblige("correspondence:C09.circshift-axes", "correspondence", bad == 0 and sens >= len(cs) // 4,
+               "%d disagreements; %d of %d cases are sensitive to the order of the axes list" % (bad, sens, len(cs)))
     ex = list(exhaustive_block_cases())
     if ctx.tier == "quick":
         ex = ctx.rng.sample(ex, 200)
     bad = _run(ctx, ex, "blocks-exhaustive", ctx.rng)
     ctx.oblige("correspondence:C09.blocks", "correspondence", bad == 0, "%d disagreements" % bad)
     ctx.traces = ctx.evaluations
+    ctx.notes.append("proved for the model functions the driver runs (whole row-major arrays, any rank): resize "
+                     "(resizeSrc_spec, resize_default_aligns_nd, resize_transpose_nd, resize_array_spec), flip "
+                     "(flip_array_spec, flip_flip_array), circshift (circshift_array_spec, circSrc_getD: total shift per "
+                     "axis, order-independent; circshift_roundtrip), downsample/upsample (array specs, "
+                     "downsample_upsample_id, upsample_downsample_mask), blocks (a2b*_dst_nodup: '=' and '+=' coincide "
+                     "in the gather kernels; b2a*_cover: scatter multiplicity = product of per-axis cover counts). "
+                     "Validated only: that Model/C09.lean's numpy slicing / roll / reshape semantics is numpy's "
+                     "(exact correspondence streams random, circshift-axes, blocks-exhaustive).")
 
 
 def check_oracle(ctx, c, x, via, origin):
